@@ -3,6 +3,7 @@ package checks
 import (
 	"encoding/json"
 	"fmt"
+	"hash/fnv"
 	"reflect"
 	"strings"
 	"time"
@@ -113,7 +114,12 @@ func (lw *listWorld) wire(u rig.Update, cl model.CmdClassifierType, src, dst *mo
 
 func (lw *listWorld) wireFrom(p *rig.Peer, u rig.Update, cl model.CmdClassifierType, src, dst *model.FeatureAddressType, ack bool) ([]byte, rig.Update, model.MsgCounterType, error) {
 	mc := p.NextCounter()
-	u.PartialFirst = mc%2 == 1 // the order of the two filters of one command carries no meaning
+	// the order of the two filters of one command carries no meaning. It is drawn from the update's content and
+	// not from the parity of the counter: histories that deliver every update twice (idempotence) would otherwise
+	// always send the first delivery delete-first and only the repeat partial-first
+	h := fnv.New32a()
+	h.Write([]byte(u.String()))
+	u.PartialFirst = (h.Sum32()^uint32(mc>>1))&1 == 1
 	var ref *model.MsgCounterType
 	if cl == model.CmdClassifierTypeReply {
 		ref = util.Ptr(model.MsgCounterType(77))
